@@ -88,6 +88,7 @@ type Env struct {
 	Structs map[string][]Field
 	Lists   map[string]Type // list sort -> element type
 	uniq    *int
+	Lookup  func(name string) (TV, bool) // package-level Go constants of the package under contract
 }
 
 func NewEnv(f *File, structs map[string][]Field) *Env {
@@ -96,7 +97,7 @@ func NewEnv(f *File, structs map[string][]Field) *Env {
 }
 
 func (e *Env) Child() *Env {
-	c := &Env{Vars: map[string]TV{}, Funcs: e.Funcs, Entry: e.Entry, XLog: e.XLog, Old: e.Old, File: e.File, Structs: e.Structs, Lists: e.Lists, uniq: e.uniq}
+	c := &Env{Vars: map[string]TV{}, Funcs: e.Funcs, Entry: e.Entry, XLog: e.XLog, Old: e.Old, File: e.File, Structs: e.Structs, Lists: e.Lists, uniq: e.uniq, Lookup: e.Lookup}
 	for k, v := range e.Vars {
 		c.Vars[k] = v
 	}
@@ -159,6 +160,25 @@ func tmod(a, b *sx.T) *sx.T {
 	return sx.Ite(sx.App(">=", a, sx.Int(0)), m, sx.App("-", m))
 }
 
+// Declare registers an SMT declaration needed by a translated term (set by the engine).
+var Declare = func(key, decl string) {}
+
+// NeedList asks the engine to register the list sort with the given element type.
+var NeedList = func(elem Type) {}
+
+func committeeT() *sx.T {
+	NeedList(Type{K: KNB})
+	Declare("uf:native_neo_GetCommittee", "(declare-const native_neo_GetCommittee L_NB)")
+	return sx.Atom("native_neo_GetCommittee")
+}
+
+// MultisigT is the term of contract.CreateMultisigAccount(m, keys).
+func MultisigT(m, keys *sx.T) *sx.T {
+	NeedList(Type{K: KNB})
+	Declare("uf:contract_CreateMultisigAccount", "(declare-fun contract_CreateMultisigAccount (Int L_NB) NB)")
+	return sx.App("contract_CreateMultisigAccount", m, keys)
+}
+
 // Tr translates a specification expression.
 func (e *Env) Tr(x Expr) TV {
 	switch x := x.(type) {
@@ -176,8 +196,10 @@ func (e *Env) Tr(x Expr) TV {
 		}
 		switch x.Name {
 		case "height":
+			Declare("uf:native_ledger_CurrentIndex", "(declare-const native_ledger_CurrentIndex Int)")
 			return TV{T: sx.Atom("native_ledger_CurrentIndex"), Ty: Type{K: KInt}}
 		case "now":
+			Declare("uf:runtime_GetTime", "(declare-const runtime_GetTime Int)")
 			return TV{T: sx.Atom("runtime_GetTime"), Ty: Type{K: KInt}}
 		}
 		if d, ok := e.File.Pures[x.Name]; ok && len(d.Params) == 0 {
@@ -186,6 +208,11 @@ func (e *Env) Tr(x Expr) TV {
 		for _, inv := range e.File.Invs {
 			if inv.Name == x.Name {
 				return e.Tr(inv.Body)
+			}
+		}
+		if e.Lookup != nil {
+			if v, ok := e.Lookup(x.Name); ok {
+				return v
 			}
 		}
 		panic("unknown identifier " + x.Name)
@@ -558,7 +585,20 @@ func logEq(a, b *LogVal) *sx.T {
 		}
 		for j := range a.Items[i].Args {
 			x, y := a.Items[i].Args[j], b.Items[i].Args[j]
-			cs = append(cs, sx.EqT(normBytes(x), normBytes(y)))
+			sa, sb := "", ""
+			if j < len(a.Items[i].Sorts) {
+				sa = a.Items[i].Sorts[j]
+			}
+			if j < len(b.Items[i].Sorts) {
+				sb = b.Items[i].Sorts[j]
+			}
+			if sa != sb {
+				return sx.Bool(false)
+			}
+			if sa == "NB" { // byte strings are compared by content
+				x, y = Bv(x), Bv(y)
+			}
+			cs = append(cs, sx.EqT(x, y))
 		}
 	}
 	return sx.And(cs...)
@@ -573,7 +613,7 @@ func normBytes(t *sx.T) *sx.T {
 }
 
 func (e *Env) callPure(d *PureDecl, args []TV) TV {
-	c := &Env{Vars: map[string]TV{}, Old: nil, File: e.File, Structs: e.Structs, Lists: e.Lists, uniq: e.uniq}
+	c := &Env{Vars: map[string]TV{}, Old: nil, File: e.File, Structs: e.Structs, Lists: e.Lists, uniq: e.uniq, Lookup: e.Lookup}
 	for i, p := range d.Params {
 		pt := parseType(p.Type)
 		c.Vars[p.Name] = TV{T: coerce(args[i], pt), Ty: pt, Log: args[i].Log}
@@ -641,6 +681,7 @@ func (e *Env) call(x *ECall) TV {
 		}
 		return TV{T: sx.App("str.len", toBytes(v)), Ty: I}
 	case x.Fn == "cnt":
+		Declare("cnt", "(declare-fun cnt (Store String) Int)")
 		return TV{T: sx.App("cnt", e.Tr(x.Args[0]).T, toBytes(e.Tr(x.Args[1]))), Ty: I}
 	case x.Fn == "lexlt":
 		return TV{T: sx.App("str.<", toBytes(e.Tr(x.Args[0])), toBytes(e.Tr(x.Args[1]))), Ty: B}
@@ -654,18 +695,33 @@ func (e *Env) call(x *ECall) TV {
 	case x.Fn == "asint":
 		return TV{T: sx.App("unbox_Int", e.Tr(x.Args[0]).T), Ty: I}
 	case x.Fn == "committee":
-		return TV{T: sx.Atom("native_neo_GetCommittee"), Ty: Type{K: KList, Name: "L_NB"}}
+		return TV{T: committeeT(), Ty: Type{K: KList, Name: "L_NB"}}
 	case x.Fn == "ripemd160":
+		Declare("uf:native_crypto_Ripemd160", "(declare-fun native_crypto_Ripemd160 (String) NB)")
 		return TV{T: sx.App("native_crypto_Ripemd160", toBytes(e.Tr(x.Args[0]))), Ty: Type{K: KNB}}
 	case x.Fn == "sha256":
+		Declare("uf:native_crypto_Sha256", "(declare-fun native_crypto_Sha256 (String) NB)")
 		return TV{T: sx.App("native_crypto_Sha256", toBytes(e.Tr(x.Args[0]))), Ty: Type{K: KNB}}
 	case x.Fn == "stdacct":
 		a := e.Tr(x.Args[0])
+		Declare("uf:contract_CreateStandardAccount", "(declare-fun contract_CreateStandardAccount (String) NB)")
 		return TV{T: sx.App("contract_CreateStandardAccount", toBytes(a)), Ty: Type{K: KNB}}
 	case x.Fn == "self":
+		Declare("uf:runtime_GetExecutingScriptHash", "(declare-const runtime_GetExecutingScriptHash NB)")
 		return TV{T: sx.Atom("runtime_GetExecutingScriptHash"), Ty: Type{K: KNB}}
+	case x.Fn == "MS":
+		m, keys := e.Tr(x.Args[0]), e.Tr(x.Args[1])
+		return TV{T: MultisigT(m.T, keys.T), Ty: Type{K: KNB}}
 	case x.Fn == "alphabet":
-		return TV{T: sx.Atom("alphabetAddr"), Ty: Type{K: KBytes}}
+		// the 2/3+1 multi-signature account of the chain committee (what common.AlphabetAddress computes)
+		c := committeeT()
+		n := sx.App("L_NB_len", c)
+		return TV{T: Bv(MultisigT(sx.App("+", tdiv(sx.App("*", n, sx.Int(2)), sx.Int(3)), sx.Int(1)), c)), Ty: Type{K: KBytes}}
+	case x.Fn == "cmtaddr":
+		// the majority multi-signature account of the chain committee (common.CommitteeAddress)
+		c := committeeT()
+		n := sx.App("L_NB_len", c)
+		return TV{T: Bv(MultisigT(sx.App("+", tdiv(n, sx.Int(2)), sx.Int(1)), c)), Ty: Type{K: KBytes}}
 	case x.Fn == "b2i":
 		return TV{T: sx.App("b2i", toBytes(e.Tr(x.Args[0]))), Ty: I}
 	case x.Fn == "i2b":
